@@ -164,7 +164,7 @@ def run_property(prop, tier, seed):
                     traces_validated += 1
                 else:
                     nbad += 1
-                    if prop.spec_is_oracle:
+                    if prop.spec_is_oracle and not dis.startswith("HIDDEN:"):
                         why = "the implementation's observations differ from the Sodium semantics: " + dis
                     elif corr_fail is None:
                         corr_fail = (b, name, lines, mout.get(name, ["MISSING"]), io)
@@ -199,6 +199,8 @@ def run_property(prop, tier, seed):
                 if any(("illegal" in x or "CRASH" in x) for v in m.values() for x in v):
                     return None      # the shrunk script is no longer a legal program
                 w = prop.agree(b, "s", cand, m, o)
+                if w and w.startswith("HIDDEN:"):
+                    w = None     # a hidden-state disagreement is not a failing input
             w = w or prop.oracle(b, "s", cand, o)
             if w and prop.known_class(b, "s", cand, o, w) != prop.known_class(b, name, lines, io, why):
                 return None
@@ -225,19 +227,23 @@ def run_property(prop, tier, seed):
             b, name, lines, mo, io = corr_fail
 
             def still(cand):
-                o = C.run_sharded(C.IMPL_RUN, b.mode, [("s", cand)], 120, 1).get("s")
-                m = C.run_sharded(C.MODEL_RUN, b.mode, [("s", cand)], 120, 1).get("s")
-                return o != m
+                if not prop.well_formed(cand):
+                    return False
+                o = C.run_sharded(C.IMPL_RUN, b.mode, [("s", cand)], 120, 1).get("s", ["MISSING"])
+                if any("harness-error" in x for x in o):
+                    return False
+                m = prop.run_model(b, [("s", cand)], {"s": o}, 1)
+                return prop.agree(b, "s", cand, m, o) is not None
             small = C.shrink(lines, still)
             o2 = C.run_sharded(C.IMPL_RUN, b.mode, [("s", small)], 120, 1).get("s", ["MISSING"])
-            m2 = C.run_sharded(C.MODEL_RUN, b.mode, [("s", small)], 120, 1).get("s", ["MISSING"])
+            m2 = prop.run_model(b, [("s", small)], {"s": o2}, 1).get("s", ["MISSING"])
             first = next((k for k, (x, y) in enumerate(zip(m2, o2)) if x != y), min(len(m2), len(o2)))
             files = {"script.ops": "# %s\n%s\n---\n" % (name, "\n".join(small)), "mode.txt": b.mode + "\n",
                      "expected.log": "\n".join(m2) + "\n", "actual.log": "\n".join(o2) + "\n"}
             why = ("correspondence broken: model part '%s' (batch %s) and the implementation disagree at "
-                   "observation %d of the shrunk script; the property oracle found no failing input among %d scripts, "
+                   "observation %d of the shrunk script (%s); the property oracle found no failing input among %d scripts, "
                    "so the property is no longer shown to hold (its theorems speak about a model that no longer "
-                   "describes the code)\n" % (b.mode, b.label, first, evaluations))
+                   "describes the code)\n" % (b.mode, b.label, first, (prop.agree(b, "s", small, {"s": m2}, o2) or "")[:300], evaluations))
         else:
             why = ("proof obligation no longer checks: %s\nno failing input was found among %d scripts\n"
                    % (proof_problem, evaluations))
